@@ -8,6 +8,7 @@
 import Rox.Props.C08Base
 import Rox.Props.C08Reject
 import Rox.Props.C01
+import Rox.Lemmas.GrammarTables
 
 namespace Rox.Props.C08
 open Rox Rox.Lemmas
@@ -35,5 +36,30 @@ theorem delivered_tokens_lexical (txt : Bytes) (hv : ValidUtf8 txt) (allowDtd : 
   | elementStart p l s => exact h.2.2.2.1
   | pi tg v r => exact h.2.2.2
   | _ => trivial
+
+/-- **Whatever is accepted is well-formed** (every valid UTF-8 input, the default `allow_dtd = false`,
+every node limit, with or without positions; tables of the build): if `parse` returns a tree, the
+input is the concrete syntax of a well-formed XML 1.0 document in the sense of `Rox.Spec.Grammar` —
+production [1] `document` without DOCTYPE: optional BOM, optional XML declaration [23] with exactly
+named pseudo-attributes, Misc, ONE root element, Misc; elements with matching start and end tags
+[39] or empty-element tags [44]; attributes [41] preceded by white space, unique by name, their
+values quoted, without `<`, every `&` starting a character reference to a legal character or a
+reference to a predefined entity [66]–[68]; character data [14] without `<`, without `]]>`, every
+`&` starting such a reference; CDATA sections [18], comments [15] without `--`, processing
+instructions [16] with a Name target separated from their content by white space; names QNames;
+every character an XML `Char` [2] — with the documented leniencies spelled out in the grammar
+(leading `:` in a name, non-scalar character references, unvalidated pseudo-attribute values,
+reserved PI targets). So a conforming XML 1.0 processor accepts it too. Namespace constraints are
+the rules of `Rox.Props.C08.Reject`. -/
+theorem accepted_is_wellformed (txt : Bytes) (hv : ValidUtf8 txt) (opt : Opt)
+    (hdtd : opt.allowDtd = false) (d : Doc) (h : parse Generated.tables txt opt = .ok d) :
+    Rox.Spec.Grammar.WellFormed Generated.tables txt :=
+  accepted_is_wellformed_generated txt hv opt hdtd d h
+
+/-- The hypotheses are satisfiable: `<a b='1'>x<!--c--><?p v?></a>` is valid UTF-8 and accepted under
+the default options — hence well-formed. -/
+theorem accepted_is_wellformed_example :
+    Rox.Spec.Grammar.WellFormed Generated.tables Rox.Lemmas.exampleDoc :=
+  exampleDoc_wellformed
 
 end Rox.Props.C08
